@@ -94,7 +94,11 @@ class LeakDetector:
         s1 = self.snap()
         if s1 != s0:
             allowed = (code.co_name in self.ALLOW_NAME
-                       or code.co_qualname in self.ALLOW_QUAL)
+                       or code.co_qualname in self.ALLOW_QUAL
+                       # context managers of the Manager module change state by contract,
+                       # whichever class of the hierarchy defines the method
+                       or (code.co_name in ("__enter__", "__exit__")
+                           and code.co_filename.endswith("core/managers.py")))
             if not allowed and not childbad:
                 ch = {}
                 for name, a, b in zip(self.FIELDS, s0, s1):
